@@ -65,4 +65,13 @@ def gen(params):
         else:
             prog = [{"op": "ctor", "s": T(base), "encoded": False},
                     {"op": "join", "ref": {"op": "ctor", "s": T(p), "encoded": False}}]
+            if rnd.random() < 0.3:
+                # a base only the VERBATIM route can make: dot segments stored under an authority.  RFC 3986 5.2.2 runs
+                # remove_dot_segments over the MERGED path, so they must be gone after joining any reference with a non-empty
+                # path -- dotted or dot-free (an empty reference path keeps Base.path as it is: not generated here)
+                bsegs = [rnd.choice(SEGS[:9]) for _ in range(rnd.randrange(1, 5))]
+                pp = p if any(c.isascii() and c.isalnum() for c in p) else "d"      # (a reference path that survives quoting)
+                ref = rnd.choice(["d", "d/e", "x y", "é", "d/", "/d", pp, pp])
+                prog = [{"op": "ctor", "s": T("http://h/" + "/".join(bsegs)), "encoded": True},
+                        {"op": "join", "ref": {"op": "ctor", "s": T(ref), "encoded": False}}]
         yield {"prog": prog, "fields": fields}
